@@ -41,7 +41,7 @@ class Group:
         self.package = 'cadence-macros' if self.target.startswith('cadence-macros/') else 'cadence'
         self.harnesses = []
         for i, ln in enumerate(self.text.split('\n')):
-            m = re.match(r'\s*//@H\s+(.*?)\s*::\s*(.*)$', ln)
+            m = re.match(r'\s*//@H\s+(.*?)\s+::\s+(.*)$', ln)
             if m:
                 kv = dict(re.findall(r'(\w+)=("[^"]*"|\S+)', m.group(1)))
                 kv = {k: v.strip('"') for k, v in kv.items()}
@@ -217,6 +217,11 @@ def evaluate(group_names, prop, tier, res, timeout_s=None):
                 # failed: which checks? assertions carry "[Cnn] text"; unlabelled checks are Kani's
                 # built-in safety checks (overflow, bounds, unwrap) => C20, and every property of the harness
                 mine, other = [], []
+                unsupported = [fc for fc in r['failed_checks'] if re.search(r'not currently supported by Kani|is not supported|unsupported construct|Unsupported', fc)]
+                if unsupported:
+                    # the code reached a construct Kani cannot interpret: no verdict, never an alarm
+                    res.undecide('kani: harness %s reached a construct Kani does not support: %s' % (h.name, unsupported[0][:300]))
+                    continue
                 for fc in r['failed_checks']:
                     m = re.match(r'"?\[([A-Z0-9, ]+)\]', fc)
                     if m:
